@@ -33,3 +33,56 @@ Theorem C20_distance_old_refuted_multibyte :
   lev_old (hx "c3a9") (hx "65") = 0 /\ lev_spec (runes (hx "c3a9")) (runes (hx "65")) = 1.
 Proof. split; vm_compute; reflexivity. Qed.
 Print Assumptions C20_distance_old_refuted_multibyte.
+
+(* ---- added by bin/mkprops ---- *)
+From GoFlags Require Import Base.Str Base.Utf8 Golib.Strings Golib.Strconv Model.Types Model.Tag Model.Scan Model.Lookup Model.Convert Model.State Model.Closest Model.Help Model.Parse Model.Ini Model.Complete.
+From GoFlags Require Import Proofs.SpellSpec.
+
+(* the suggested command has the minimum distance; ties go to the first in sorted order *)
+Theorem C20_nearest_is_first_minimum :
+  forall (w : str) (names : list str) (c : str) (l : nat),
+         names <> [] ->
+         closest_choice w names = (c, l) ->
+         In c names /\
+         l = lev_go w c /\
+         (forall c' : str, In c' names -> (l <= lev_go w c')%nat) /\
+         (exists pre post : list str,
+            names = pre ++ c :: post /\ (forall p : str, In p pre -> (l < lev_go w p)%nat)).
+Proof. exact C20_closest_is_minimum. Qed.
+Print Assumptions C20_nearest_is_first_minimum.
+
+(* suggestion iff distance < half the name's length, otherwise the enumeration of exactly the sorted visible commands *)
+Theorem C20_message :
+  forall (root : command) (s : pst),
+         let names := visible_sorted_names (cur_cmd root s) in
+         match ps_ret s with
+         | [] => estimate_command root s = EFlags ErrCommandRequired (required_text names)
+         | w :: _ =>
+             let c := fst (closest_choice w names) in
+             let l0 := snd (closest_choice w names) in
+             let base := s2l "Unknown command `" ++ w ++ s2l "'" in
+             exists msg : str,
+               estimate_command root s = EFlags ErrUnknownCommand msg /\
+               ((2 * l0 < Datatypes.length c)%nat -> msg = base ++ suggestion_tail c) /\
+               (~ (2 * l0 < Datatypes.length c)%nat ->
+                msg = base ++ enumeration_tail names /\ (forall c' : str, msg <> base ++ suggestion_tail c')) /\
+               (msg = base ++ suggestion_tail c <-> (2 * l0 < Datatypes.length c)%nat)
+         end.
+Proof. exact C20_message_shape. Qed.
+Print Assumptions C20_message.
+
+Theorem C20_hidden_never_named :
+  forall c : command,
+         (forall n : str,
+          In n (visible_sorted_names c) ->
+          exists sc : command, In sc (cmd_subs c) /\ c_hidden (cmd_info sc) = false /\ c_name (cmd_info sc) = n) /\
+         (forall sc : command,
+          In sc (cmd_subs c) ->
+          c_hidden (cmd_info sc) = false -> In (c_name (cmd_info sc)) (visible_sorted_names c)) /\
+         Permutation.Permutation (visible_sorted_names c)
+           (map (fun sc : command => c_name (cmd_info sc))
+              (filter (fun sc : command => negb (c_hidden (cmd_info sc))) (cmd_subs c))) /\
+         Sorted.StronglySorted (fun a b : str => str_ltb b a = false) (visible_sorted_names c).
+Proof. exact C20_hidden_never. Qed.
+Print Assumptions C20_hidden_never_named.
+
